@@ -76,9 +76,12 @@ class BlockRec(e7.Recogniser):
     def __init__(self, F, f):
         super().__init__(f)
         self.F = F
-        ch = [i for i, l in enumerate(f.locals) if l["ty"].endswith("scanner::Chomping") and l.get("name")]
-        if len(ch) != 1:
+        # the chomping indicator may live in several variables (one per function after a helper was spliced in, temporaries of a returned
+        # tuple): they hold the same value, which only constructor assignments change
+        ch = [i for i, l in enumerate(f.locals) if l["ty"].endswith("scanner::Chomping")]
+        if not [i for i in ch if f.locals[i].get("name")]:
             raise facts.MissingAnchor("scan_block_scalar: the chomping variable was not identified")
+        self.chomps = set(ch)
         self.chomp = ch[0]
         self.variants = [v["name"] for v in F.adt(CHOMP)["variants"]]
         self.vidx = {v["discr"]: v["name"] for v in F.adt(CHOMP)["variants"]}
@@ -116,6 +119,39 @@ class BlockRec(e7.Recogniser):
                 return True
         return False
 
+    def _is_chomp_place(self, e):
+        return False
+
+    def _raw_chomp_discr(self, op):
+        """the switch operand is `discriminant(v)` of one of the chomping holders (looked up on the raw statement, so that a holder with
+        a single definition is not expanded into the expression it was moved from)"""
+        f = self.f
+        l = is_local(op)
+        if l is None:
+            return False
+        ds = cfg.defs_of_local(f, l)
+        return len(ds) == 1 and ds[0][0] == "stmt" and ds[0][3]["rv"]["k"] == "discr" and ds[0][3]["rv"]["p"]["l"] in self.chomps and not ds[0][3]["rv"]["p"]["p"]
+
+    def _raw_chomp_ref(self, op):
+        f = self.f
+        l = is_local(op)
+        for _ in range(3):
+            if l is None:
+                return False
+            ds = cfg.defs_of_local(f, l)
+            if len(ds) != 1 or ds[0][0] != "stmt":
+                return False
+            rv = ds[0][3]["rv"]
+            if rv["k"] == "ref":
+                if rv["p"]["l"] in self.chomps and not rv["p"]["p"]:
+                    return True
+                l = rv["p"]["l"] if [x["k"] for x in rv["p"]["p"]] == ["deref"] else None
+            elif rv["k"] == "use":
+                l = is_local(rv["a"])
+            else:
+                return False
+        return False
+
     def buf_of_local(self, l):
         return self.init_of.get(l)
 
@@ -124,7 +160,7 @@ class BlockRec(e7.Recogniser):
         f = self.f
         t = f.blocks[bi]["term"]
         e = cfg.expr_operand(f, t["discr"], 8)
-        if e[0] == "discr" and e[1] in (("phi", self.chomp), ("local", self.chomp)):
+        if self._raw_chomp_discr(t["discr"]) or (e[0] == "discr" and e[1][0] in ("phi", "local") and e[1][1] in self.chomps):
             edges, listed = [], []
             for v, tg in zip(t["vals"], t["targets"]):
                 edges.append((Cons([self.vidx[v]]), tg))
@@ -132,7 +168,10 @@ class BlockRec(e7.Recogniser):
             edges.append((Cons(neg=listed), t["otherwise"]))
             return (("chomp",), edges)
         if t["dty"] != "bool" or t["vals"] != [0]:
-            return None
+            # any other multi-way test (the ControlFlow of a `?`, an Option ...) only forks the path
+            edges = [(Cons([v]), tg) for v, tg in zip(t["vals"], t["targets"])]
+            edges.append((Cons(neg=t["vals"]), t["otherwise"]))
+            return (("opaque", "multi", bi), edges)
         tt, ft = t["otherwise"], t["targets"][0]
         while e[0] == "un" and e[1] == "Not":
             e = e[2]
@@ -145,7 +184,7 @@ class BlockRec(e7.Recogniser):
             blk = f.blocks[e[3]]["term"]
             a0 = cfg.expr_operand(f, blk["args"][0], 4)
             v = promoted_variant(f, blk["args"][1])
-            if a0 == ("ref", ("phi", self.chomp)) or a0 == ("ref", ("local", self.chomp)):
+            if self._raw_chomp_ref(blk["args"][0]) or (a0[0] == "ref" and a0[1][0] in ("phi", "local") and a0[1][1] in self.chomps):
                 if v is None:
                     return None
                 is_ne = blk["f"]["fn"]["name"] == "ne"
@@ -177,13 +216,14 @@ class BlockRec(e7.Recogniser):
             return None
         l = s["lhs"]["l"]
         rv = s["rv"]
-        if l == self.chomp:
+        if l in self.chomps:
             if rv["k"] == "agg" and rv.get("adt") == CHOMP:
+                # a temporary that is then moved into the variable is reported once, at the temporary
                 return ("set_chomp", rv["variant"])
             if rv["k"] == "use":
-                e = cfg.expr_operand(f, rv["a"], 4)
-                if e[0] == "adt" and e[1] == CHOMP:
-                    return ("set_chomp", e[2])
+                c = op_const(rv["a"])
+                if c is None:
+                    return None          # the value moves from one holder to another (variable <- temporary / tuple field)
             return ("set_chomp", "?")
         nm = f.locals[l].get("name")
         if f.locals[l]["ty"] == "usize" and nm and rv["k"] == "use":
